@@ -18,7 +18,7 @@ EXTENDS Naturals, Sequences, FiniteSets, TLC
 CONSTANTS MaxEv,     \* simulator events explored
           MaxInj,    \* injected events explored
           MaxDown,   \* region teardowns explored
-          Batches    \* which response shapes the simulator uses (subset of 1..7)
+          Batches    \* which response shapes the simulator uses (subset of 1..8)
 
 VARIABLES
     (* proxy *)   queue, cache, regs, seen,
@@ -39,18 +39,23 @@ IsInj(e) == e > 900
 (*       count block holding those variables / carries that block as an empty list;        *)
 (*  "ES" EnableSimulator, "EAC" EstablishAgentCommunication, "TF" TeleportFinish announce   *)
 (*       region .reg.                                                                      *)
-(* How (and whether) the proxy decodes an event never changes how the response is          *)
+(*  "ba" / "bs" / "bu" / "bi"  an untemplated event whose body is not a map but an LLSD    *)
+(*       array / string / undef / integer (BK rotates through them with the event number,  *)
+(*       so every form meets every context);                                               *)
+(* How (and whether) the proxy can decode an event never changes how the response is       *)
 (* processed: all non-announcing kinds are the same to every action below.                 *)
 Ev(k) == [k |-> k, reg |-> 0]
 P == Ev("p")
 Ann(k, x) == [k |-> k, reg |-> x]
+BK(n) == Ev(<<"ba", "bs", "bu", "bi">>[(n % 4) + 1])
 Batch(i) == CASE i = 1 -> <<Ev("to")>>
               [] i = 2 -> <<P, Ev("to")>>
               [] i = 3 -> <<Ann("ES", 2)>>
               [] i = 4 -> <<Ann("EAC", 2), Ev("te")>>
               [] i = 5 -> <<Ev("to"), Ann("TF", 3)>>
               [] i = 6 -> <<Ann("ES", 2), Ann("TF", 2)>>
-              [] i = 7 -> <<Ev("tc"), P>>
+              [] i = 7 -> <<Ev("tc"), BK(nev + 2)>>
+              [] i = 8 -> <<BK(nev + 1), Ann("TF", 3)>>
 (* Environment: addons swallow only events that announce no region (what a swallowed        *)
 (* announcement means for registration is left open by the property).                       *)
 Swallowable(b) == {i \in DOMAIN b : b[i].reg = 0}
@@ -127,7 +132,7 @@ Teardown == /\ ndown < MaxDown /\ ndown' = ndown + 1
             /\ UNCHANGED <<regs, seen, nev, sid, got, ninj, sentOK, announced>>
 
 Next == \/ PollFwd \/ \E lost \in BOOLEAN : PollCached(lost)
-        \/ \E i \in 1..7 : \E sw \in SUBSET (1..2) : \E lost \in BOOLEAN : SimRespond(i, sw, lost)
+        \/ \E i \in 1..8 : \E sw \in SUBSET (1..2) : \E lost \in BOOLEAN : SimRespond(i, sw, lost)
         \/ (\E kind \in FailKinds : SimFail(kind)) \/ Inject \/ Teardown
 Spec == Init /\ [][Next]_vars
 
